@@ -8,6 +8,13 @@ let rec nat_of_int n = if n = 0 then O else S (nat_of_int (n - 1))
 let bytes_of_hex s = if s = "-" then [] else List.init (String.length s / 2) (fun i -> n_of_int (int_of_string ("0x" ^ String.sub s (2*i) 2)))
 let hex_of_bytes l = let b = Buffer.create 256 in List.iter (fun x -> Buffer.add_string b (Printf.sprintf "%02x" (int_of_n x))) l; Buffer.contents b
 let int_of_z = function Z0 -> 0 | Zpos p -> int_of_pos p | Zneg p -> - (int_of_pos p)
+(* exact decimal printing (OCaml's native int has 63 bits: 64-bit header fields of damaged files do not fit) *)
+let dec_of_pos p =
+  let rec dbl l c = match l with [] -> if c = 0 then [] else [c] | d :: r -> let v = 2 * d + c in (v mod 10) :: dbl r (v / 10) in
+  let rec go = function XH -> [1] | XO q -> dbl (go q) 0 | XI q -> dbl (go q) 1 in
+  String.concat "" (List.rev_map string_of_int (go p))
+let str_of_n = function N0 -> "0" | Npos p -> dec_of_pos p
+let str_of_z = function Z0 -> "0" | Zpos p -> dec_of_pos p | Zneg p -> "-" ^ dec_of_pos p
 let rec cstr_hex l = match l with [] -> "" | x :: r -> let v = int_of_n x in if v = 0 then "" else Printf.sprintf "%02x" v ^ cstr_hex r
 let ints s = List.map int_of_string (String.split_on_char ',' s)
 
@@ -84,15 +91,15 @@ let () =
          (match r with
           | None -> Buffer.add_string b (Printf.sprintf "E%d" (int_of_n e))
           | Some ((h, files), sysf) ->
-            Buffer.add_string b (Printf.sprintf "H%d %d %d %d %d %d %d %d %d %d %d %d %d" (int_of_n e) (int_of_n h.h_version) (int_of_n h.h_language) (int_of_z h.h_length) (int_of_n h.h_num_chunks)
+            Buffer.add_string b (Printf.sprintf "H%d %d %d %s %d %d %d %d %d %d %d %s %s" (int_of_n e) (int_of_n h.h_version) (int_of_n h.h_language) (str_of_z h.h_length) (int_of_n h.h_num_chunks)
               (int_of_n h.h_chunk_size) (int_of_n h.h_density) (int_of_n h.h_depth) (int_of_n h.h_index_root) (int_of_n h.h_first_pmgl) (int_of_n h.h_last_pmgl)
-              (int_of_z h.h_sec0_offset) (int_of_z h.h_dir_offset));
-            let pe tag en = Buffer.add_string b (Printf.sprintf ";%s %s %d %d %d" tag (cstr_hex en.e_name) (int_of_n en.e_sec) (int_of_n en.e_off) (int_of_n en.e_len)) in
+              (str_of_z h.h_sec0_offset) (str_of_z h.h_dir_offset));
+            let pe tag en = Buffer.add_string b (Printf.sprintf ";%s %s %d %s %s" tag (cstr_hex en.e_name) (int_of_n en.e_sec) (str_of_n en.e_off) (str_of_n en.e_len)) in
             List.iter (pe "F") files; List.iter (pe "S") sysf);
          List.iter (fun r -> match r with
            | RExtract (st, out) -> Buffer.add_string b (Printf.sprintf "#X %d %s" (int_of_n st) (hex_of_bytes out))
            | RFind (st, None) -> Buffer.add_string b (Printf.sprintf "#N %d none" (int_of_n st))
-           | RFind (st, Some ((sec, off), ln)) -> Buffer.add_string b (Printf.sprintf "#N %d %d %d %d" (int_of_n st) (int_of_n sec) (int_of_n off) (int_of_n ln))
+           | RFind (st, Some ((sec, off), ln)) -> Buffer.add_string b (Printf.sprintf "#N %d %d %s %s" (int_of_n st) (int_of_n sec) (str_of_n off) (str_of_n ln))
            | RNoFile -> Buffer.add_string b "#-") res;
          print_endline (Buffer.contents b)
      | "oab", [mode; bs; basehex; hex] ->
